@@ -1,6 +1,7 @@
 import ALock.Lemmas.RwLockWord
 import ALock.Lemmas.AtomicRwLock
 import ALock.Lemmas.AtomTraceRw
+import ALock.Lemmas.Accept
 
 /-!
 # C11 — RwLock: upgrade, try_upgrade and the downgrades are atomic transitions
@@ -164,3 +165,20 @@ theorem C11_upgrade_atoms (s : Sys) (g f : Nat) :
   step_atoms_words s (.upgrade g f)
 
 end ALock.RwLock
+
+namespace ALock.Accept.RwLock
+open ALock.Atomic.RwLock
+
+/-- **C11 (executions of the real crate under preemption).** In every accepted execution the inner
+mutex has at most one holder, and while an agent is between the two atomic steps of
+`downgrade_write`, holds an upgradable guard or has an upgrade pending, nobody has a write guard and
+the inner mutex — which every writer must take first — is taken. -/
+theorem C11_accepted (n : Nat) (tr : List TEv) (st' : St) (h : acceptAll (init n) tr = .ok st') :
+    mholders st'.sys.ags ≤ 1 ∧
+    ∀ i : Nat, (st'.sys.ags[i]? = some Pc.dw ∨ st'.sys.ags[i]? = some Pc.u ∨ st'.sys.ags[i]? = some Pc.pu) →
+      writers st'.sys.ags = 0 ∧ mholders st'.sys.ags = 1 := by
+  obtain ⟨⟨l, e⟩, _⟩ := accepted_reachable h
+  rw [e]
+  exact ⟨ALock.Atomic.RwLock.C11_interleaved_slot l, fun i hi => ALock.Atomic.RwLock.C11_interleaved_downgrade l i hi⟩
+
+end ALock.Accept.RwLock
